@@ -33,9 +33,9 @@ WRITE = (
      'del(.a)', 'del(.b)', 'del(.[0])', 'del(.k)', 'del(.c) | .b', 'del(.k.j)',
      '. * {"n": {"m": 1}}', '. * {"k": {"m": 1}}', '. + {"n": 1}', '. *= {"n": {"m": [1, {"o": 2}]}}', '.k * {"m": {"o": 1}}',
      '.b = "x" | .a'])
-WRITE_QUICK = ['.zz = 1', '.k = null', '.a.k = 2', '.b.k = 9', '.x.y.z = 1', '.b = .a', '.j = .k', '.[1] = .[0]', '.k[1] = .k[0]', '.[.k] = 1',
+WRITE_QUICK = ['.zz = 1', '.a.k = 2', '.b.k = 9', '.x.y.z = 1', '.b = .a', '.j = .k', '.[1] = .[0]', '.k[1] = .k[0]', '.[.k] = 1',
                '.a = ["", " ", "a\\tb", "é", "\\u0001"]', '.a = "x: y"', '.a = "*x"', '.a = "0x1F"', '.a = "l1\\nl2\\n"', '.a = "a,b"', '.a = " s "',
-               '.a |= .', '.. |= .', '.k |= "x"', 'del(.a)', 'del(.[0])', 'del(.c) | .b', '. * {"n": {"m": 1}}', '. * {"k": {"m": 1}}', '. + {"n": 1}']
+               '.a |= .', '.. |= .', 'del(.a)', 'del(.[0])', 'del(.c) | .b', '. * {"n": {"m": 1}}', '. + {"n": 1}']
 QSTR = ["a", "", " a", "a: b", "0x1F", "true", "~", "é", "a\nb", "'", "*a", "a,b", "|", "---"]
 QKEYS = ["k", "a b", "", "true", "a: b", " a", "a,b", "|", "%a", "-", "<<"]
 
@@ -261,7 +261,7 @@ def run(ctx):
         return cligen.replay_sets(rep, ctx, rejudge)
     quick = tier == "quick"
     corpus = cligen.ycorpus(tier, strs=QSTR if quick else None, keys=QKEYS if quick else None)
-    nav = NAV[:8] if quick else NAV
+    nav = ['.', '.a', '.k', '.[0]', '.[-1]', '.k.j'] if quick else NAV
     wr = WRITE_QUICK if quick else WRITE
     items = [(d[0], "navigation", d[2]) for d in corpus] + [(d[0], "write", d[2]) for d in corpus if d[3]]
     r8 = batch.spawn(["yq", "-I", "8", "."], b"a: 1\n")
